@@ -215,11 +215,11 @@ def slice_obs(ety, ename, cap):
         goals = [('no access outside the containers', ctx.accesses_inside()), ('containers and guards unchanged', z3.And(frame(ctx, b1, []), frame(ctx, b2, [])))]
         if ctx.status == 'abort':
             return goals + [('abort only when the index is out of range for one of the two slice values', z3.Or(z3.UGE(i, n), z3.UGE(i, m)))]
-        alts = []
+        goals.append(('a return means the index is in range of one of the two slice values', z3.Or(z3.ULT(i, n), z3.ULT(i, m))))
         for j in range(cap):
-            alts.append(z3.And(i == j, z3.ULT(i, n), ctx.ret == elem_value(ctx, b1, j * st, ety)))
-            alts.append(z3.And(i == j, z3.ULT(i, m), ctx.ret == elem_value(ctx, b2, j * st, ety)))
-        return goals + [('the result is element i of a slice value whose length is > i', z3.Or(*alts))]
+            goals.append(('the result is element i of a slice value whose length is > i',
+                          z3.Implies(i == j, z3.Or(z3.And(z3.ULT(i, n), ctx.ret == elem_value(ctx, b1, j * st, ety)), z3.And(z3.ULT(i, m), ctx.ret == elem_value(ctx, b2, j * st, ety))))))
+        return goals
     ob = Ob(name, src, [('buf', arr, True), ('scalar', 'usize'), ('buf', arr, True), ('scalar', 'usize'), ('scalar', 'usize')], tname, sfx_read_post,
             {'kind': 'slice-read-index-reassigns-slice', 'elem': tname}, pre=lambda xs: [z3.ULE(xs[0], cap), z3.ULE(xs[1], cap)])
     ob.handles_abort = True; obs.append(ob)
@@ -233,13 +233,12 @@ def slice_obs(ety, ename, cap):
         if ctx.status == 'abort':
             return goals + [('abort only when the index is out of range for one of the two slice values', z3.Or(z3.UGE(i, n), z3.UGE(i, m))),
                             ('nothing was written before the abort', z3.And(frame(ctx, b1, []), frame(ctx, b2, [])))]
-        alts = []
         for j in range(cap):
-            alts.append(z3.And(i == j, z3.ULT(i, n), ctx.final_bytes(b1, j * st, es) == x))
-            alts.append(z3.And(i == j, z3.ULT(i, m), ctx.final_bytes(b2, j * st, es) == x))
             goals.append(('nothing but element i changed', z3.Implies(i == j, z3.And(frame(ctx, b1, [(j * st, es)]), frame(ctx, b2, [(j * st, es)])))))
+            goals.append(('element i of a slice value whose length is > i holds the written value',
+                          z3.Implies(i == j, z3.Or(z3.And(z3.ULT(i, n), ctx.final_bytes(b1, j * st, es) == x), z3.And(z3.ULT(i, m), ctx.final_bytes(b2, j * st, es) == x)))))
         goals.append(('a return means the index is in range of one of the two slice values', z3.Or(z3.ULT(i, n), z3.ULT(i, m))))
-        return goals + [('element i of a slice value whose length is > i holds the written value', z3.Or(*alts))]
+        return goals
     ob = Ob(name, src, [('buf', arr, True), ('scalar', 'usize'), ('buf', arr, True), ('scalar', 'usize'), ('scalar', 'usize'), ('scalar', tname)], None, sfx_write_post,
             {'kind': 'slice-write-index-reassigns-slice', 'elem': tname}, pre=lambda xs: [z3.ULE(xs[0], cap), z3.ULE(xs[1], cap)])
     ob.handles_abort = True; obs.append(ob)
